@@ -168,50 +168,26 @@ def servesRow : Row → List Str → Bool
       | [] => false
   | .splat _ :: _, _ => true
 
-/-- The narrower reading of "served" that the router's localisation step recognises — a *known limitation*, made
-    explicit here so that the judgement applied to the implementation is exactly the one that is proved:
-    as `servesRow`, except that
-    (1) the route must be used up together with the segments: once the last segment is consumed nothing of the
-        route may be left, so a route that ends in an empty static segment, a unit, an absent optional parameter or
-        a splat taking nothing is not read (nor is any non-empty route for the empty path);
-    (2) an optional parameter is read as present exactly when the segment is the parameter's own name.
-    `servesRowExact row r` implies `servesRow row r` (`servesRowExact_serves`), not conversely. -/
-def servesRowExact : Row → List Str → Bool
-  | [], r => r.isEmpty
-  | _ :: _, [] => false
-  | .unit :: ps, s :: tl => servesRowExact ps (s :: tl)
-  | .static m :: ps, s :: tl =>
-    if m.isEmpty then servesRowExact ps (s :: tl) else (s == m && servesRowExact ps tl)
-  | .param _ :: ps, _ :: tl => servesRowExact ps tl
-  | .optional m :: ps, s :: tl => if s = m then servesRowExact ps tl else servesRowExact ps (s :: tl)
-  | .splat _ :: _, _ :: _ => true
-
 /-- some route (same index in both tables) serves `r` in the old locale's table and `r'` in the new locale's -/
 def pairServes : Tables → Tables → List Str → List Str → Bool
   | ra :: tA, rb :: tB, r, r' => (servesRow ra r && servesRow rb r') || pairServes tA tB r r'
   | _, _, _, _ => false
 
-/-- no route of the old locale serves `r` (in the reading `reads`), or the route that serves `r` serves `r'` in the
-    new locale's table -/
-def sameRouteServesIf (reads : Row → List Str → Bool) (tA tB : Tables) (r r' : List Str) : Bool :=
-  !(tA.any (fun row => reads row r)) || pairServes tA tB r r'
-
-/-- the judgement that is proved of `get_new_path` and applied to the implementation: premise in the reading
-    `servesRowExact`, conclusion in the full reading `servesRow` -/
-def sameRouteServes (tA tB : Tables) (r r' : List Str) : Bool := sameRouteServesIf servesRowExact tA tB r r'
-
-/-- the ideal judgement (premise in the full reading `servesRow`); `get_new_path` does **not** meet it, see
-    `C14_switch_rewrites_localized_full_refuted` -/
-def sameRouteServesFull (tA tB : Tables) (r r' : List Str) : Bool := sameRouteServesIf servesRow tA tB r r'
+/-- no route of the old locale serves `r`, or a route that serves `r` serves `r'` in the new locale's table
+    (same index).  Existential over the routes: when several routes serve `r` any of them may be the one. -/
+def sameRouteServes (tA tB : Tables) (r r' : List Str) : Bool :=
+  !(tA.any (fun row => servesRow row r)) || pairServes tA tB r r'
 
 /-- nothing is demanded when either locale has no route table -/
-def sameRouteServesOpt (reads : Row → List Str → Bool) : Option Tables → Option Tables → List Str → List Str → Bool
-  | some tA, some tB, r, r' => sameRouteServesIf reads tA tB r r'
+def sameRouteServesOpt : Option Tables → Option Tables → List Str → List Str → Bool
+  | some tA, some tB, r, r' => sameRouteServes tA tB r r'
   | _, _, _, _ => true
 
-/-- `switchOk` with the final judgement on the remaining segments strengthened by `also` -/
-def switchOkWith (also : List Str → List Str → Bool) (names : List Str) (tA tB : Option Tables)
-    (path search hash base : Str) (new : Nat) (loc : Option Nat) (out : Str) : Bool :=
+/-- **Strong judgement of a switch**: as `switchOk`, and — when both locales have a route table — if the old
+    remaining segments are served by a route of the old locale, the new remaining segments are served by the same
+    route of the new locale.  A result that copies a localized segment instead of rewriting it fails. -/
+def switchOkStrong (names : List Str) (tA tB : Option Tables) (path search hash base : Str)
+    (new : Nat) (loc : Option Nat) (out : Str) : Bool :=
   match afterBase path base with
   | none => true
   | some rest =>
@@ -221,19 +197,11 @@ def switchOkWith (also : List Str → List Str → Bool) (names : List Str) (tA 
       match dropPrefix (segments base ++ localePrefix names new) (segments p) with
       | none => false
       | some r' =>
-        onlyLocalizedChanged tA tB (restOf names rest loc) r' && also (restOf names rest loc) r'
+        onlyLocalizedChanged tA tB (restOf names rest loc) r' && sameRouteServesOpt tA tB (restOf names rest loc) r'
 
-/-- **Strong judgement of a switch**: `switchOk`, and — when both locales have a route table — if the old remaining
-    segments are served by a route of the old locale (reading `servesRowExact`), the new remaining segments are served
-    by the same route of the new locale.  A result that copies a localized segment instead of rewriting it fails. -/
-def switchOkStrong (names : List Str) (tA tB : Option Tables) (path search hash base : Str)
-    (new : Nat) (loc : Option Nat) (out : Str) : Bool :=
-  switchOkWith (sameRouteServesOpt servesRowExact tA tB) names tA tB path search hash base new loc out
-
-/-- the ideal strong judgement (premise: served in the full reading `servesRow`) -/
-def switchOkFull (names : List Str) (tA tB : Option Tables) (path search hash base : Str)
-    (new : Nat) (loc : Option Nat) (out : Str) : Bool :=
-  switchOkWith (sameRouteServesOpt servesRow tA tB) names tA tB path search hash base new loc out
+/-- the name under which the ideal judgement was stated while `match_path_segments` did not meet it (before the
+    repair `e02576e` the checked judgement had a narrower premise); now the same thing as `switchOkStrong` -/
+abbrev switchOkFull := switchOkStrong
 
 /-- a URL in the form the router itself produces: base path, locale prefix (none for the default), segments -/
 def normalPath (base : Str) (pfx r : List Str) : Str :=
